@@ -290,8 +290,12 @@ class Model:
 
         with self._part('insert'):
             # (1) first_child_found_in: classify search order
-            f = base.methods.get("first_child_found_in")
-            ieb = base.methods.get("insert_element_before")
+            # the methods may live in a mixin / base of BaseOxmlElement: looked up through the MRO, read in canonical form
+            from .inline import expand as _exp_m
+            from .sink import sink as _sink_m
+
+            f = prog.lookup(base, "first_child_found_in")
+            ieb = prog.lookup(base, "insert_element_before")
             if ieb is None:
                 raise AnalysisError("anchor vanished: BaseOxmlElement.insert_element_before")
             search = None
@@ -300,7 +304,12 @@ class Model:
             # (2) insert_element_before, read with `for ...: if ...: ...; break / else:` written as next(...) + if/else
             import copy as _copy
 
+            ieb_src = ieb
             ieb = _copy.copy(ieb)
+            try:
+                ieb.node = _sink_m(_exp_m(prog, ieb_src, depth=2, local_only=True))
+            except Exception:  # noqa: BLE001 - fall back to the source form
+                ieb.node = ieb_src.node
             ieb.node = _for_else_to_next(ieb.node)
             muts = _method_calls(ieb.node)
             args = ieb.params
@@ -315,7 +324,7 @@ class Model:
                     if d.startswith("self.") and d.count(".") == 1 and len(st.value.args) == 1:
                         a0 = st.value.args[0]
                         passes = (isinstance(a0, ast.Starred) and dotted(a0.value) == varargs) or dotted(a0) == varargs
-                        helper = base.methods.get(d.split(".")[1])
+                        helper = prog.lookup(base, d.split(".")[1])
                         if passes and helper is not None:
                             hs = self._classify_search(helper.node)
                             if hs is not None:
@@ -355,7 +364,7 @@ class Model:
 
         with self._part('remover'):
             # (3) remove_all removes every match
-            ra = base.methods.get("remove_all")
+            ra = prog.lookup(base, "remove_all")
             if ra is None:
                 raise AnalysisError("anchor vanished: BaseOxmlElement.remove_all")
             rcalls = [n for n, _ in _method_calls(ra.node)]
